@@ -314,6 +314,27 @@ macro_rules! each {
     };
 }
 
+/// Visits every shard of a track store exactly once. `get_store(id)` is documented as "the store shard for id": which ids
+/// share a shard is the store's business (today id % n), so the shards are found by probing ids until as many distinct
+/// shard objects have been seen as `shard_stats()` reports.
+#[macro_export]
+macro_rules! all_shards {
+    ($s:expr, $g:ident => $body:block) => {{
+        let n = $s.shard_stats().len();
+        let mut seen: Vec<usize> = vec![];
+        let mut probe = 0usize;
+        while seen.len() < n && probe < 64 * n + 64 {
+            let $g = $s.get_store(probe);
+            let addr = &*$g as *const _ as *const u8 as usize;
+            if !seen.contains(&addr) {
+                seen.push(addr);
+                $body
+            }
+            probe += 1;
+        }
+    }};
+}
+
 impl AnyTracker {
     pub fn new(cfg: &Cfg) -> AnyTracker {
         SCENELESS0.with(|c| c.set(cfg.sceneless0));
@@ -356,15 +377,15 @@ impl AnyTracker {
         }
     }
 
+    // (see add_order below for the order in which a batch request is filled)
     /// submit one batch and retrieve all results on the calling thread
     pub fn predict_batch(&mut self, batch: &[(u64, Vec<Det>)]) -> Vec<(u64, Vec<Rec>)> {
         match self {
             AnyTracker::BatchSort(t) => {
                 let (mut req, res) = PredictionBatchRequest::<(Universal2DBox, Option<i64>)>::new();
-                for (s, ds) in batch {
-                    for d in ds {
-                        req.add(*s, (d.b.lib(), d.custom));
-                    }
+                for (si, di) in add_order(batch) {
+                    let d = &batch[si].1[di];
+                    req.add(batch[si].0, (d.b.lib(), d.custom));
                 }
                 t.predict(req);
                 (0..res.batch_size()).map(|_| {
@@ -374,10 +395,9 @@ impl AnyTracker {
             }
             AnyTracker::BatchVisual(t) => {
                 let (mut req, res) = PredictionBatchRequest::<VisualSortObservation>::new();
-                for (s, ds) in batch {
-                    for d in ds {
-                        req.add(*s, VisualSortObservation::new(d.feature.as_deref(), d.quality, d.b.lib(), d.custom));
-                    }
+                for (si, di) in add_order(batch) {
+                    let d = &batch[si].1[di];
+                    req.add(batch[si].0, VisualSortObservation::new(d.feature.as_deref(), d.quality, d.b.lib(), d.custom));
                 }
                 t.predict(req);
                 (0..res.batch_size()).map(|_| {
@@ -407,20 +427,18 @@ impl AnyTracker {
         match self {
             AnyTracker::BatchSort(t) => {
                 let (mut req, res) = PredictionBatchRequest::<(Universal2DBox, Option<i64>)>::new();
-                for (s, ds) in batch {
-                    for d in ds {
-                        req.add(*s, (d.b.lib(), d.custom));
-                    }
+                for (si, di) in add_order(batch) {
+                    let d = &batch[si].1[di];
+                    req.add(batch[si].0, (d.b.lib(), d.custom));
                 }
                 let _h = spawn_consumer(res);
                 t.predict(req);
             }
             AnyTracker::BatchVisual(t) => {
                 let (mut req, res) = PredictionBatchRequest::<VisualSortObservation>::new();
-                for (s, ds) in batch {
-                    for d in ds {
-                        req.add(*s, VisualSortObservation::new(d.feature.as_deref(), d.quality, d.b.lib(), d.custom));
-                    }
+                for (si, di) in add_order(batch) {
+                    let d = &batch[si].1[di];
+                    req.add(batch[si].0, VisualSortObservation::new(d.feature.as_deref(), d.quality, d.b.lib(), d.custom));
                 }
                 let _h = spawn_consumer(res);
                 t.predict(req);
@@ -477,27 +495,19 @@ impl AnyTracker {
         match self {
             AnyTracker::Sort(t) => {
                 let s = t.get_wasted_store();
-                for k in 0..s.shard_stats().len() {
-                    v.extend(s.get_store(k).keys().cloned());
-                }
+                all_shards!(s, g => { v.extend(g.keys().cloned()); });
             }
             AnyTracker::BatchSort(t) => {
                 let s = t.get_wasted_store();
-                for k in 0..s.shard_stats().len() {
-                    v.extend(s.get_store(k).keys().cloned());
-                }
+                all_shards!(s, g => { v.extend(g.keys().cloned()); });
             }
             AnyTracker::Visual(t) => {
                 let s = t.get_wasted_store();
-                for k in 0..s.shard_stats().len() {
-                    v.extend(s.get_store(k).keys().cloned());
-                }
+                all_shards!(s, g => { v.extend(g.keys().cloned()); });
             }
             AnyTracker::BatchVisual(t) => {
                 let s = t.get_wasted_store();
-                for k in 0..s.shard_stats().len() {
-                    v.extend(s.get_store(k).keys().cloned());
-                }
+                all_shards!(s, g => { v.extend(g.keys().cloned()); });
             }
         }
         v.sort();
@@ -509,35 +519,35 @@ impl AnyTracker {
         match self {
             AnyTracker::Sort(t) => {
                 let s = t.get_main_store();
-                for k in 0..s.shard_stats().len() {
-                    for (id, tr) in s.get_store(k).iter() {
-                        v.push(live_sort(*id, tr, k, 0));
+                all_shards!(s, g => {
+                    for (id, tr) in g.iter() {
+                        v.push(live_sort(*id, tr, 0, 0));
                     }
-                }
+                });
             }
             AnyTracker::BatchSort(t) => {
                 let s = t.get_main_store();
-                for k in 0..s.shard_stats().len() {
-                    for (id, tr) in s.get_store(k).iter() {
-                        v.push(live_sort(*id, tr, k, 0));
+                all_shards!(s, g => {
+                    for (id, tr) in g.iter() {
+                        v.push(live_sort(*id, tr, 0, 0));
                     }
-                }
+                });
             }
             AnyTracker::Visual(t) => {
                 let s = t.get_main_store();
-                for k in 0..s.shard_stats().len() {
-                    for (id, tr) in s.get_store(k).iter() {
+                all_shards!(s, g => {
+                    for (id, tr) in g.iter() {
                         v.push(live_visual(*id, tr));
                     }
-                }
+                });
             }
             AnyTracker::BatchVisual(t) => {
                 let s = t.get_main_store();
-                for k in 0..s.shard_stats().len() {
-                    for (id, tr) in s.get_store(k).iter() {
+                all_shards!(s, g => {
+                    for (id, tr) in g.iter() {
                         v.push(live_visual(*id, tr));
                     }
-                }
+                });
             }
         }
         v.sort_by_key(|t| t.id);
@@ -1111,6 +1121,45 @@ pub struct MTrk {
     pub dets: Vec<DBox>,
     pub preds: Vec<DBox>,
     pub feats: Vec<Option<Vec<f32>>>,
+}
+
+/// The order in which the detections of a multi-scene batch are add()ed to the request: scene by scene as given, scene by
+/// scene in reverse, or interleaved round-robin across the scenes (detector order) - always keeping each scene's own
+/// detections in their order, which is all the API asks for. Chosen by a hash of the batch, so replays are identical.
+pub fn add_order(batch: &[(u64, Vec<Det>)]) -> Vec<(usize, usize)> {
+    let mut h = crate::rng::Hasher::new();
+    h.u64(batch.len() as u64);
+    for (s, ds) in batch {
+        h.u64(*s).u64(ds.len() as u64);
+        if let Some(d) = ds.first() {
+            h.f32(d.b.xc);
+        }
+    }
+    let mode = if batch.len() < 2 { 0 } else { h.get() % 3 };
+    let mut out = vec![];
+    match mode {
+        0 => {
+            for (si, (_, ds)) in batch.iter().enumerate() {
+                out.extend((0..ds.len()).map(|di| (si, di)));
+            }
+        }
+        1 => {
+            for (si, (_, ds)) in batch.iter().enumerate().rev() {
+                out.extend((0..ds.len()).map(|di| (si, di)));
+            }
+        }
+        _ => {
+            let most = batch.iter().map(|(_, ds)| ds.len()).max().unwrap_or(0);
+            for di in 0..most {
+                for (si, (_, ds)) in batch.iter().enumerate() {
+                    if di < ds.len() {
+                        out.push((si, di));
+                    }
+                }
+            }
+        }
+    }
+    out
 }
 
 #[derive(Default)]
